@@ -79,7 +79,7 @@ DsCurGen(h, w)  == IF w.key = "state" THEN ds[h].gen ELSE 0
 DsVerdict(h, w) ==
   LET present == DsPresent(h, w) IN
   IF w.mode = "mc" /\ present THEN [ok |-> FALSE, gen |-> 0]
-  ELSE IF w.mode = "mr" /\ ~present THEN [ok |-> FALSE, gen |-> 0]
+  ELSE IF w.mode \in {"mr", "ma"} /\ ~present THEN [ok |-> FALSE, gen |-> 0]
   ELSE IF w.gen # -1 /\ ~present THEN [ok |-> FALSE, gen |-> 0]
   ELSE IF w.gen # -1 /\ w.gen # DsCurGen(h, w) THEN [ok |-> FALSE, gen |-> 0]
   ELSE [ok |-> TRUE, gen |-> IF present /\ w.key = "state" THEN DsCurGen(h, w) + 1 ELSE 0]
@@ -89,11 +89,13 @@ DsApplied(h, w, fault) == DsVerdict(h, w).ok /\ fault # "reject"
 
 DsAfter(h, w, fault) ==
   IF w.key = "state" /\ DsApplied(h, w, fault)
-  THEN [ds EXCEPT ![h] = [st |-> w.val.st,
-                          a  |-> IF w.val.st = "pending" THEN w.val.a ELSE 0,
-                          t  |-> IF w.val.st = "pending" THEN w.val.t ELSE 0,
+  THEN LET \* the append modes glue the new text to the old one: two JSON documents in a row do not parse
+           st1 == IF w.mode \in {"coa", "ma"} /\ DsPresent(h, w) THEN "unparsable" ELSE w.val.st IN
+       [ds EXCEPT ![h] = [st |-> st1,
+                          a  |-> IF st1 = "pending" THEN w.val.a ELSE 0,
+                          t  |-> IF st1 = "pending" THEN w.val.t ELSE 0,
                           gen |-> DsVerdict(h, w).gen,
-                          key |-> IF w.val.st = "succeeded" THEN w.val.key ELSE ""]]
+                          key |-> IF st1 = "succeeded" THEN w.val.key ELSE ""]]
   ELSE ds
 
 AttAfter(h, w, fault) ==
